@@ -1,5 +1,6 @@
 import LivesimVerif.Model.Fault
 import LivesimVerif.Props.C02
+import LivesimVerif.Lemmas.Traffic
 /-!
 # C14 — Fault-injection parameters hit exactly the scheduled requests
 
@@ -297,3 +298,67 @@ example : stateAt [(1, 20), (2, 3), (1, 12)] 21 = some 2 ∧ stateAt [(1, 20), (
 example : parseLoss "" = none ∧ parseLoss "u0" = none ∧ parseLoss "u5d" = none := by decide
 
 end Core
+
+/-! ## Traffic patterns at the handler: the BaseURL directory selects the pattern (`Model/Traffic.lean`, op `tdec`) -/
+namespace Traffic
+open Core
+
+/-- **The BaseURL the MPD offers comes back as its own index**, for every index (one digit or many): `extractPattern`
+reads `/bu<n>/rest` as pattern `n` and hands on `/rest`. -/
+theorem c14_baseurl_index (n : Nat) (rest : List Char) (hn : n ≤ 9223372036854775807) :
+    extractPattern ('/' :: (baseURLDir n ++ '/' :: rest)) = some ((n : Int), '/' :: rest) := by
+  unfold extractPattern baseURLDir
+  have hns : ∀ c ∈ 'b' :: 'u' :: Nat.toDigits 10 n, c ≠ '/' := by
+    intro c hc
+    simp only [List.mem_cons] at hc
+    rcases hc with h | h | h
+    · rw [h]; decide
+    · rw [h]; decide
+    · exact toDigits_no_slash n c h
+  obtain ⟨h1, h2⟩ := takeWhile_no_slash ('b' :: 'u' :: Nat.toDigits 10 n) rest hns
+  simp only [h1, h2, atoiL_toDigits n hn]
+
+/-- **Each BaseURL follows its own pattern**: a request through the `j`-th offered BaseURL is decided by the state of
+pattern `j` at the whole second of the request, and the segment is then looked up without the directory. -/
+theorem c14_traffic_route (pats : List (List LossItvl)) (j nowMS : Nat) (rest : List Char) (hj : j < pats.length)
+    (hn : j ≤ 9223372036854775807) :
+    route pats ('/' :: (baseURLDir j ++ '/' :: rest)) nowMS =
+      (match stateAt (pats.getD j []) (nowMS / 1000) with
+        | some s => Decision.state s
+        | none => Decision.crash, '/' :: rest) := by
+  unfold route
+  rw [c14_baseurl_index j rest hn]
+  have h1 : ¬ ((j : Int) ≥ (pats.length : Int)) := by omega
+  have h2 : (j : Int) ≥ 0 := by omega
+  simp only [h1, h2, if_false, if_true, Int.toNat_natCast]
+  cases stateAt (pats.getD j []) (nowMS / 1000) <;> rfl
+
+/-- with patterns as the URL parser admits them (`c14_loss_parse`), the state exists: the request never crashes and is
+up, missing, slow or hanging exactly as `stateIn` walks the intervals of pattern `j` -/
+theorem c14_traffic_route_state (pats : List (List LossItvl)) (j nowMS : Nat) (rest : List Char) (hj : j < pats.length)
+    (hn : j ≤ 9223372036854775807) (hgood : ∀ l ∈ pats, l ≠ [] ∧ GoodItvls l) :
+    route pats ('/' :: (baseURLDir j ++ '/' :: rest)) nowMS =
+      (Decision.state (stateIn (pats.getD j []) (nowMS / 1000 % cycleDur (pats.getD j []))), '/' :: rest) := by
+  rw [c14_traffic_route pats j nowMS rest hj hn]
+  have hmem : pats.getD j [] ∈ pats := by
+    rw [List.getD_eq_getElem?_getD, List.getElem?_eq_getElem hj]; simp
+  obtain ⟨hne, hg⟩ := hgood _ hmem
+  have hpos := cycleDur_pos _ hne hg
+  simp only [stateAt, Nat.ne_of_gt hpos, if_false]
+
+/-- **An index without pattern is no BaseURL**: 404, whatever the time -/
+theorem c14_traffic_no_such (pats : List (List LossItvl)) (j nowMS : Nat) (rest : List Char) (hj : pats.length ≤ j)
+    (hn : j ≤ 9223372036854775807) :
+    (route pats ('/' :: (baseURLDir j ++ '/' :: rest)) nowMS).1 = Decision.noSuchBaseURL := by
+  unfold route
+  rw [c14_baseurl_index j rest hn]
+  have h1 : (j : Int) ≥ (pats.length : Int) := by omega
+  simp only [h1, if_true]
+
+/-- non-vacuity: thirteen patterns, the request through `bu12` at second 100 meets `d7u2` (cycle 9, second 1: down) -/
+example : route [[(1,3)],[(2,3)],[(1,2),(2,1)],[(2,1),(1,2)],[(1,5)],[(2,5)],[(1,1),(2,1)],[(2,2),(1,1)],[(1,4)],[(2,4)],
+    [(2,3),(1,3)],[(1,2)],[(2,7),(1,2)]] "/bu12/V300/49.m4s".toList 100300 = (Decision.state 2, "/V300/49.m4s".toList) := by
+  decide
+example : baseURLDir 12 = "bu12".toList := by decide
+
+end Traffic
